@@ -6,6 +6,7 @@ from harness.props import C01
 
 ID = 'C07'
 LEAN_TARGETS = ['Props.C07']
+TIE_A = ['tuple_as_sign_and_bitmap_eq']
 OBLIGATIONS = [
     'C07.tuple_sign_is_sorting_parity', 'C07.tuple_repeated_id_error', 'C07.setitem_getitem',
     'C07.call_keeps_grade', 'C07.call_beyond_dimension', 'C07.projections_sum', 'C07.projection_idempotent',
